@@ -90,19 +90,26 @@ def prefix_sid(tokeniser: Any) -> PrefixSid:  # noqa: C901
     value = tokeniser()
     get_range = False
     consume_extra = False
+    if value != '[':
+        raise ValueError(f"could not parse BGP PrefixSid attribute: expected '[' but found '{value}'")
     try:
         if value == '[':
             label_sid = tokeniser()
             while True:
                 value = tokeniser()
+                if value == '':
+                    raise ValueError("missing closing ']'")
                 if value == '[':
                     consume_extra = True
                     continue
                 if value == ',':
                     continue
                 if value == '(':
+                    base = srange = ''
                     while True:
                         value = tokeniser()
+                        if value == '':
+                            raise ValueError("missing closing ')'")
                         if value == ')':
                             break
                         if value == ',':
@@ -123,11 +130,18 @@ def prefix_sid(tokeniser: Any) -> PrefixSid:  # noqa: C901
     except Exception as e:
         raise ValueError(f'could not parse BGP PrefixSid attribute: {e}') from None
 
-    if int(label_sid) < pow(2, 32):
-        sr_attrs.append(SrLabelIndex.make_labelindex(int(label_sid)))
+    if not label_sid.isdigit() or int(label_sid) >= pow(2, 32):
+        raise ValueError(f"'{label_sid}' is not a valid BGP PrefixSid label index\n  Must be 0 to {pow(2, 32) - 1}")
+    sr_attrs.append(SrLabelIndex.make_labelindex(int(label_sid)))
 
     for srgb in srgb_data:
-        if len(srgb) == SRGB_TUPLE_SIZE and int(srgb[0]) < pow(2, 24) and int(srgb[1]) < pow(2, 24):
+        if (
+            len(srgb) == SRGB_TUPLE_SIZE
+            and srgb[0].isdigit()
+            and srgb[1].isdigit()
+            and int(srgb[0]) < pow(2, 24)
+            and int(srgb[1]) < pow(2, 24)
+        ):
             srgbs.append((int(srgb[0]), int(srgb[1])))
         else:
             raise ValueError('could not parse SRGB tupple')
@@ -144,11 +158,11 @@ def prefix_sid(tokeniser: Any) -> PrefixSid:  # noqa: C901
 def prefix_sid_srv6(tokeniser: Any) -> PrefixSid:
     value = tokeniser()
     if value != '(':
-        raise Exception(f"expect '(', but received '{value}'")
+        raise ValueError(f"expect '(', but received '{value}'")
 
     service_type = tokeniser()
     if service_type not in ['l3-service', 'l2-service']:
-        raise Exception(f"expect 'l3-service' or 'l2-service', but received '{value}'")
+        raise ValueError(f"expect 'l3-service' or 'l2-service', but received '{value}'")
 
     sid = IPv6.unpack_ipv6(IPv6.pton(tokeniser()))
     behavior = 0xFFFF
